@@ -1,5 +1,6 @@
 //! tsv — runtime-monitoring harness for typeshare (see /verif/DESIGN.md).
 mod checks;
+mod facts;
 mod gen;
 mod ir;
 mod lang;
